@@ -23,7 +23,7 @@ RULE = (
 )
 ASSUMPTIONS = [
     "endpoint-level set semantics: a subscribe adds the endpoint, an unsubscribe removes it if present (an unsubscribe of an endpoint that is not subscribed changes nothing)",
-    "steps sharing one loop iteration with an explicit round: the membership at issue time or at send time (one iteration later) are both accepted; the payload of every notification must be the event's value at the moment the datagram is handed to the transport",
+    "steps sharing one loop iteration with an explicit round: for an endpoint whose membership changes after the round was requested (or, through the wire, anywhere in that iteration) being notified and not being notified are both accepted; the payload of every notification must be the event's value at the moment the datagram is handed to the transport",
     "the schedule of cyclic rounds is not fixed by the statement: every cyclic round must be complete and go to exactly the current subscribers, and a subscriber that stays longer than two intervals must see a round",
 ]
 BUDGET = {"quick": {"examples": 8000, "shrink": 300}, "thorough": {"examples": 300000, "shrink": 2000}}
@@ -162,9 +162,14 @@ def run_case(case):
         def expect(kind, ep, ev, val):
             pend[kind][(_ep_addr(ep), ev, val)] += 1
 
+        opseq = [0]
+
         def execute(k, s):
             op = s["op"]
             in_group[0] = True
+            opseq[0] += 1
+            if op in ("sub", "unsub"):
+                group_changes.setdefault("member_ops", []).append((opseq[0], s.get("eg", 1) if s.get("eg", 1) in (1, 2) else 1, s.get("ep", 0) % len(EPS)))
             if via_sd and op in ("sub", "unsub", "badsub"):
                 ep = s.get("ep", 0) % len(EPS)
                 g = s.get("eg", 1) if s.get("eg", 1) in (1, 2) else 1
@@ -255,7 +260,7 @@ def run_case(case):
                 groups[g].values = {ev: values[ev] for ev in events[g]}
             elif op == "notify":
                 evs = [ev for i, ev in enumerate(events[1]) if s.get("mask", 0) & (1 << i)]
-                group_changes.setdefault("rounds", []).append((set(subs[1]), list(evs), dict(values)))
+                group_changes.setdefault("rounds", []).append((set(subs[1]), list(evs), dict(values), opseq[0]))
                 eg1.notify_once(evs)
 
         def after_group(i0, i1):
@@ -267,9 +272,15 @@ def run_case(case):
                             lambda: f"steps {i0}..{i1 - 1}: SubscribeAck entries (peer, eventgroup, ttl) {dict(acks)}, expected {dict(sd_expect)} (a subscription naming other than exactly one endpoint, or an unknown eventgroup, is refused)")
                     sd_expect.clear()
             # explicit rounds: membership / values may have changed later within the same iteration
-            for members, evs, vals in group_changes.get("rounds", []):
+            for members, evs, vals, rseq in group_changes.get("rounds", []):
+                changed_after = {e_ for (q_, g_, e_) in group_changes.get("member_ops", []) if g_ == 1 and q_ > rseq}
                 for ep in set(members) | subs[1] | {e_ for (g_, e_) in group_changes["members"] if g_ == 1}:
-                    stable_member = ep in members and ep in subs[1] and (1, ep) not in group_changes["members"]
+                    if via_sd:
+                        # Subscribe datagrams are dispatched one iteration after they arrive: any change inside the group is ambiguous
+                        stable_member = ep in members and ep in subs[1] and (1, ep) not in group_changes["members"]
+                    else:
+                        # direct calls take effect at once: a member when the round was requested that nobody touched afterwards
+                        stable_member = ep in members and ep not in changed_after
                     for ev in evs:
                         stable_val = ev not in group_changes["values"]
                         if stable_member and stable_val:
